@@ -4,7 +4,7 @@ from hypothesis import strategies as st
 from ECAgent.Core import Agent, Model
 from ECAgent.Environments import DiscreteWorld, GridWorld, LineWorld, SpaceWorld, PositionComponent
 from vf.engine import Violation, InvalidCase
-from vf.fixtures import CompA, CompB, CompC, check, sized_lists
+from vf.fixtures import CompA, CompB, CompC, check, sized_lists, wone_of
 
 PROPERTY = "C03"
 BUDGET = {"quick": 1600, "thorough": 5000}
@@ -270,7 +270,7 @@ def run_case(case):
 
 
 def strategy(tier):
-    m, a, t = st.integers(0, 2), st.one_of(st.integers(0, 1), st.integers(0, 4)), st.one_of(st.just(0), st.integers(0, 2))
+    m, a, t = st.integers(0, 2), wone_of(st.integers(0, 1), st.integers(0, 4)), wone_of(st.just(0), st.integers(0, 2))
     paired = st.sampled_from([True, True, False])
     k = st.integers(0, 14)
     pos = st.tuples(st.integers(0, 9), st.integers(0, 9), st.integers(0, 9)).map(list)
@@ -278,7 +278,7 @@ def strategy(tier):
     attach = st.fixed_dictionaries({"op": st.just("attach"), "m": m, "a": a, "t": t, "paired": paired})
     join_abs = st.fixed_dictionaries({"op": st.just("join"), "m": m, "a": a, "pos": pos, "foreign": foreign})
     join_rel = st.fixed_dictionaries({"op": st.just("join"), "k": k, "pos": pos, "foreign": foreign})
-    ops = st.one_of(
+    ops = wone_of(
         attach, attach, attach, join_abs, join_abs, join_rel,
         st.fixed_dictionaries({"op": st.just("detach"), "m": m, "a": a, "t": t, "paired": paired}),
         st.fixed_dictionaries({"op": st.just("detach"), "k": k, "paired": paired}),
@@ -288,5 +288,5 @@ def strategy(tier):
     )
     init = st.fixed_dictionaries({"comps": st.sampled_from([0, 0, 1, 1, 1, 2, 3, 4, 5, 7]), "joined": st.booleans(), "pos": pos})
     return st.fixed_dictionaries({"models": st.lists(st.integers(0, 4), min_size=2, max_size=3),
-                                  "init": st.one_of(st.just([]), st.lists(init, min_size=15, max_size=15)),
-                                  "ops": st.one_of(st.lists(ops, min_size=1, max_size=12), sized_lists(ops, 8, 45), sized_lists(ops, 8, 45))})
+                                  "init": wone_of(st.just([]), st.lists(init, min_size=15, max_size=15)),
+                                  "ops": wone_of(st.lists(ops, min_size=1, max_size=12), sized_lists(ops, 8, 45), sized_lists(ops, 8, 45))})
